@@ -116,6 +116,7 @@ def run(ctx) -> None:
                 "2 redshift bins); a stratified sample of them is realised on the real sphere under rigid placements; non-trivial = at least one "
                 "non-zero cross-patch cell or unequal patch radii")
     ctx.assume("all separations are multiples of 5 deg and all scale thresholds lie between lattice distances: geometry between lattice points is not exercised (C14)")
+    pair_iteration(ctx)
     F = families(quick)
     embs = ["equator", "ra_wrap", "meridian_pole", "tilted"] if quick else list(sky.EMBEDDINGS)
     nreal = 10 if quick else 120
@@ -161,6 +162,42 @@ def run(ctx) -> None:
             ctx.validated(1)
             ok = compare_counts(ctx, "C01", fam, sc, exp, obs, "equator")
             ctx.extra.setdefault("deviation_replays", {})[dev] = dict(scenario=dict(ref=st["ref"], unk=st["unk"]), real_code_exact=ok)
+
+
+def pair_iteration(ctx):
+    """spec/PairIter.tla: iter_patch_id_pairs for every symmetric reflexive link relation;
+    the order produced by the real code must be one of the orders TLC enumerates."""
+    from harness import tlc
+    from yaw.correlation.measurements import PatchLinkage
+
+    np_ = 3 if ctx.quick else 4
+    cfg = tlc.make_cfg(constants=dict(NP=np_, Autos="{TRUE, FALSE}"),
+                       invariants=["EachLinkedPairOnce", "NeverTwice", "AutosFirst", "PrintDone"], properties=["Termination"])
+    res = tlc.run("PairIter", cfg, coverage=True)
+    ctx.add_tlc(f"PairIter: all link relations on {np_} patches, all pop orders", res)
+    ctx.require(res.ok, f"PairIter violated: {res.error_kind} {res.error_name}")
+    for act in ("AutoStep", "RoundStep", "RoundEnd"):
+        ctx.require(res.coverage.get(act, (0, 0))[1] > 0, f"PairIter action {act} never taken")
+    allowed = {}
+    for links0, auto, yielded in res.printed("done"):
+        rel = tuple(tuple(sorted(links0[i])) for i in sorted(links0)) if isinstance(links0, dict) else tuple(tuple(sorted(x)) for x in links0)
+        allowed.setdefault((rel, bool(auto)), set()).add(tuple(tuple(p) for p in yielded))
+    cfgobj = sky.SkyConfig().yaw_config()
+    for (rel, auto), orders in allowed.items():
+        links = {i: set(j - 1 for j in rel[i]) for i in range(np_)}          # patch ids are 0-based in the library
+        got = tuple((i + 1, j + 1) for i, j in PatchLinkage(cfgobj, links).iter_patch_id_pairs(auto=auto))
+        ctx.evaluated(1, ("pairiter", rel, auto))
+        ctx.validated(1)
+        want = {(i + 1, j) for i in range(np_) for j in rel[i] if (not auto or j >= i + 1)}
+        if sorted(got) != sorted(want):
+            kind = "auto" if auto else "cross"
+            missing = sorted(want - set(got))
+            ctx.violation(f"C01|iter_patch_id_pairs|{kind}|linked_pairs_not_visited_exactly_once",
+                          dict(links={k: sorted(v) for k, v in links.items()}, auto=auto, yielded=list(got), missing=missing[:4],
+                               duplicates=len(got) - len(set(got))))
+        elif got not in orders:
+            ctx.drift("C01|iter_patch_id_pairs|order_not_among_model_orders", dict(links={k: sorted(v) for k, v in links.items()}, auto=auto, yielded=list(got)))
+    ctx.extra["pair_iteration"] = dict(link_relations=len(allowed) // 2, patches=np_)
 
 
 def expected_for(ctx, sc, st):
